@@ -33,7 +33,7 @@ ASSUMPTIONS = [
 
 DECLARED = [None, "a", "b"]
 PHYSICAL = ["main", "a", "b", "c"]
-KINDS = ["select1", "join", "subq", "exists", "insert", "update", "delete", "ins_from_select", "upd_corr", "ddl_toggle", "create_all", "drop_all", "select1", "join"]
+KINDS = ["select1", "join", "subq", "exists", "insert", "update", "delete", "ins_from_select", "upd_corr", "ddl_toggle", "create_all", "drop_all", "select1", "join", "ins_many_subq", "ins_many_subq"]
 
 MAP_TEMPLATES = [
     None,  # option absent
@@ -103,7 +103,7 @@ class Side:
         return self.tables[key]
 
 
-def build(sa, side, spec, schema_fn, step_no, t3_exists):
+def build(sa, side, spec, schema_fn, step_no, t3_exists, returning=True):
     """-> (list of callables(conn, opts) -> result summary). schema_fn maps a declared schema to the schema baked in"""
     d1, d2 = DECLARED[spec["s1"]], DECLARED[spec["s2"]]
     k = spec["k"]
@@ -128,6 +128,13 @@ def build(sa, side, spec, schema_fn, step_no, t3_exists):
         return sa.delete(T2).where(T2.c.id == 1 + k), None
     if kind == "ins_from_select":
         return sa.insert(T1).from_select(["id", "tag"], sa.select(T2.c.id + (1000 + 10 * step_no), T2.c.tag).where(T2.c.id <= 1 + k)), None
+    if kind == "ins_many_subq":
+        # insertmanyvalues: list of parameter sets (+ RETURNING on the live tier) with a per-row VALUES element that is itself
+        # subject to schema translation (scalar subquery against the schema-bound T2)
+        stmt = sa.insert(T1).values(tag=sa.select(sa.func.coalesce(sa.func.max(T2.c.tag), "none")).scalar_subquery())
+        if returning:
+            stmt = stmt.returning(T1.c.id, T1.c.tag)
+        return stmt, [{"id": 3000 + 10 * step_no + i} for i in range(2 + (k & 1))]
     if kind == "upd_corr":
         return sa.update(T1).values(tag=sa.select(sa.func.coalesce(sa.func.max(T2.c.tag), f"none{step_no}")).where(T2.c.t1_id == T1.c.id).scalar_subquery()).where(T1.c.id <= 1 + k), None
     T3 = side.t("t3", schema_fn(d1))
@@ -162,7 +169,8 @@ def run(sa, eng, stmt, params, m, how, capture):
             stmt = stmt.execution_options(**opts)
         res = conn.execute(stmt, params) if params is not None else conn.execute(stmt)
         if res.returns_rows:
-            return ("rows", [tuple(r) for r in res])
+            rows = [tuple(r) for r in res]
+            return ("rows", sorted(rows, key=repr) if stmt.is_insert else rows)
         return ("rowcount", res.rowcount)
 
 
@@ -372,8 +380,8 @@ def check_rec(case, ctx):
             is_ddl = spec["kind"] == "ddl_toggle"
             target3 = translate(m, DECLARED[spec["s1"]])
             t3x = t3_state.get(target3, False)
-            stmtA, params = build(sa, real, spec, lambda d: d, step_no, t3x)
-            stmtB, _ = build(sa, twin, spec, lambda d: translate(m, d), step_no, t3x)
+            stmtA, params = build(sa, real, spec, lambda d: d, step_no, t3x, returning=False)
+            stmtB, _ = build(sa, twin, spec, lambda d: translate(m, d), step_no, t3x, returning=False)
             key = cache_identity(spec)
             inconsistent = bool(m) and not is_ddl and key in first_none and first_none[key] != (None in m)
             try:
